@@ -36,6 +36,8 @@ REQUIRED = [
     "vkStencil_length", "whereMask_nodup", "stencil_ne_x", "conditional_mean_cov", "aMat_eq_mul", "bbt_eq_sub", "bMat_eq_mul", "newRow_eq_mulVec",
     "A_eq", "psd_sq_inj", "B_eq", "schur_posSemidef", "cond_law", "stationary_step", "model_identities",
     "model_identities_phase_covariance", "H2_of_kernel", "fried_shift", "fried_shift_screen", "newRowFried_affine", "vk_shift",
+    "retune_A_invariant", "retune_A_of_contract", "retune_BBt_scales", "toM_smul", "retune_model", "phase_covariance_r0_scaling",
+    "retune_r0_model",
 ]
 
 # All tolerances below were calibrated on the repaired tree (turb.phase_covariance in binary64, fix 4518b2c) over 12 seeds
